@@ -4,19 +4,14 @@ sys.path.insert(0, os.path.dirname(__file__))
 from funnel_common import funnel_job, funnel_conc_job, funnel_shared_job, FUNNEL_RULE, FUNNEL_ASSUME
 
 PROP = {
-    "lean_modules": ["ConduitModel.Props.C05"],
+    "lean_modules": ["ConduitModel.Props.BatchProps"],
     "jobs": [funnel_job("C09"), funnel_conc_job("C09"), funnel_shared_job("C09")],
     "rule": FUNNEL_RULE,
-    "strength": "v2: proved — the tainted loop hands out the batch left to right exactly once (all status vectors); pass-level order "
-                "to each destination is decided by the monitor on every implementation trace + equality with the model (partial: composition not proved). v1: see Props/C05Stream when merged",
+    "strength": 'task-level totality: full; whole pass and v1: partial',
     "assumptions": FUNNEL_ASSUME,
 }
 META = {
-    "text": "Lean 4 theorems for every status vector: the sub-batches the arch-v2 worker hands to the next task are non-empty, contiguous, "
-            "in index order and cover the batch exactly once (C05_subbatches_partition / _cover / _groups_progress). The executable model of the "
-            "whole pass (Model/Funnel.lean) is tied to the real funnel.Worker by equality of event logs on generated topologies/scripts, and the "
-            "no-panic/no-hang outcome check on every case (malformed reply stream included) is evaluated on every implementation trace.",
-    "note": "PARTIAL: the composition of the loop theorem with the task recursion (doTaskAttempt/doNextTask/retry) is validated by differential "
-            "testing, not proved. Fan-out concurrency is compared under serial branch orders. Go channel/goroutine semantics, plugins replaced by fakes.",
-    "technique": "Lean 4 proof of the batch-partition law + model/implementation trace equality + Lean-defined trace monitor",
+    "text": "Lean 4 totality theorems: under the batch invariant no mutator indexes out of range (C09_mutators_total, guards shown necessary), ProcessorTask.Do and DestinationTask.Do return ok-with-invariant or an error for ANY reply list (any length, kinds, positions, errors) and never panic (C09_procDo_total, C09_destDo_total, *_never_panics), the retry recursion is bounded (C09_retry_terminates). Every generated case (incl. a malformed reply stream) must end without panic/hang in the real engine; outcome class and event log equal the model's.",
+    "note": 'v2 engine: task-level totality proved; pass-level by correspondence. v1 engine and RunnableProcessor condition merge: Props/C09Stream when merged. PARTIAL: the composition of these leaf theorems with the task recursion of Worker.doTaskAttempt/doNextTask (whole-pass statement) is validated by equality of event logs against the executable Lean model and by the Lean-defined trace monitor on every implementation trace (serial fan-out orders, real concurrent fan-out, several sources into one shared sink), not proved. v1 (default engine) part: Props/*Stream when merged. Trusted: Lean kernel, factgen, harness/fakes, Go runtime.',
+    "technique": 'Lean 4 totality proofs (Except-valued model, partial indexing) + differential correspondence incl. malformed reply streams',
 }
